@@ -6,6 +6,8 @@ mod c03;
 mod c04;
 mod c05;
 mod c06;
+mod c08;
+mod c13;
 mod reg;
 mod c14;
 mod c15;
@@ -51,6 +53,8 @@ fn main() {
     "C05" => c05::run(tier, seed),
     "C06" => c06::run(tier, seed),
     "C07" => reg::run_c07(tier, seed),
+    "C08" => c08::run(tier, seed),
+    "C13" => c13::run(tier, seed),
     "C14" => c14::run(tier, seed),
     "C15" => c15::run_c15(tier, seed),
     "C17" => c17::run_c17(tier, seed),
